@@ -19,7 +19,8 @@
   * `C09_grow_iff`, `C09_grow_only_when_full`, `C09_no_early_growth`: one `add` lengthens the
     queue by one iff it is effective and the newest sub-filter holds `est` insertions.
   * `C09_add_no_error`: under the invariant an `add` raises nothing.
-  Not proved here: the export/load round trip (C05).
+  * `C09_reload`: the same from any state with the invariant and the shape (a restored filter).
+  Not proved here: the export/load round trip itself (C05).
 -/
 import PyProb.Lemmas.ExpandingCore
 
@@ -256,6 +257,19 @@ theorem C09_expansions_from (e : Expanding) (n : Nat) (ops : List Op) (hok : ∀
   rw [h]
   omega
 
+/-- the "restored from an export" clause: a state whose per-filter counts have the shape written by
+    a `push`-free history of `n` effective insertions (what C05's round trip restores) behaves,
+    under any further `push`-free history, exactly like the filter that was saved -/
+theorem C09_reload (e : Expanding) (n : Nat) (ops : List Op) (hok : ∀ op ∈ ops, op.ok e.k)
+    (hadds : ∀ op ∈ ops, op.isAdd = true) (hi : e.Inv) (hs : e.Shape n) :
+    (∀ b ∈ (run e ops).blooms, 0 ≤ b.count ∧ b.count ≤ e.est) ∧
+    (run e ops).Shape (n + effCount ops) ∧
+    (run e ops).expansions =
+      ((if n + effCount ops = 0 then 0 else (n + effCount ops - 1) / e.est : Nat) : Int) ∧
+    (run e ops).added = e.added + addCount ops :=
+  ⟨C09_bound_from e ops hok hi, C09_shape_from e n ops hok hadds hi hs,
+    C09_expansions_from e n ops hok hadds hi hs, C09_counted e ops⟩
+
 /-- `expansions = max(0, ⌈I/est⌉ − 1)` written with natural-number division -/
 theorem C09_expansions (est fpr32 k m : Nat) (h1 : 1 ≤ est) (ops : List Op) (hok : ∀ op ∈ ops, op.ok k)
     (hadds : ∀ op ∈ ops, op.isAdd = true) :
@@ -351,6 +365,10 @@ example : effCount sampleOps = 6 ∧ addCount sampleOps = 7 := by decide
 example : (run (Expanding.new 2 0 2 16) sampleOps).blooms.map (·.count) = [2, 2, 2] := by decide
 example : (run (Expanding.new 2 0 2 16) sampleOps).expansions = 2 := by decide
 example : (run (Expanding.new 2 0 2 16) sampleOps).added = 7 := by decide
+/-- the theorems instantiated on the sample -/
+example : (run (Expanding.new 2 0 2 16) sampleOps).expansions = ((if effCount sampleOps = 0 then 0
+    else (effCount sampleOps - 1) / 2 : Nat) : Int) :=
+  C09_expansions 2 0 2 16 (by decide) sampleOps (by decide) (by decide)
 /-- the boundary: the `est`-th insertion does not grow, the `est+1`-th does -/
 example : (run (Expanding.new 2 0 2 16) (sampleOps.take 2)).blooms.map (·.count) = [2] := by decide
 example : (run (Expanding.new 2 0 2 16) (sampleOps.take 4)).blooms.map (·.count) = [2, 1] := by decide
